@@ -84,6 +84,19 @@ def run(run):
             with open(t, "rb") as f:
                 shutil.copyfileobj(f, o)
     check_trace(run, "invocations", "TraceProto_" + tag, "TraceProto_%s.cfg" % tag, allp, spec_dir=gd, timeout=1700)
+    # the header's other configurations: unwind messages compiled in (CONFIG_PT_UNWIND), and a release-style build
+    for vtag, flags in (("unwind", ["-DCONFIG_PT_UNWIND"]), ("rel", list(ALT_FLAGS))):
+        try:
+            exe3 = build_driver(run, "proto_" + vtag, "proto_main.c", [], extra_flags=[gen] + flags)
+        except Infra as e:
+            if vtag != "unwind":
+                raise
+            # the very same programs compiled a moment ago: with the unwind messages compiled in, the macros no longer
+            # behave as single statements (an unbraced if / else around PT_FAIL, PT_EXIT_ON, ...)
+            raise Violation("valid protothread programs do not compile with CONFIG_PT_UNWIND: %s" % str(e)[-600:],
+                            replay=save_replay(run, "unwind-build", {"property": run.pid, "what": "CONFIG_PT_UNWIND build", "compiler": str(e)[-4000:]}))
+        t3 = exec_script(run, exe3, [], "", run.path(vtag + ".ndjson"), "real-macros-" + vtag, timeout=300)
+        check_trace(run, "invocations-" + vtag, "TraceProto_" + tag, "TraceProto_%s.cfg" % tag, t3, spec_dir=gd, timeout=1700)
     srcs = json.load(open(os.path.join(gd, "proto_gen.c.json")))
     for s_ in srcs:
         run.count_case(s_["main"])
